@@ -24,7 +24,8 @@ type c11Case struct {
 	Prefix    string `json:"prefix"` // "" or "x" (directory above the PS3ISO element)
 	Ext       string `json:"ext"`
 	Depth     int    `json:"depth"` // nesting below the PS3ISO element
-	Key       string `json:"key"`   // none | adjacent | redkey | both | malformed | malformed+redkey
+	Key       string `json:"key"`   // none | adjacent | redkey | both | malformed | malformed+redkey | redkey-is-file
+	LongName  bool   `json:"long_name,omitempty"` // the image's name has 255 bytes: no key file can exist beside it
 	Watermark string `json:"watermark"`
 	Length    int    `json:"length"`
 	Seed      uint64 `json:"seed"`
@@ -49,6 +50,13 @@ func (c c11Case) relDir() string {
 		p += fmt.Sprintf("/n%d", i)
 	}
 	return p
+}
+
+func (c c11Case) baseName() string {
+	if c.LongName {
+		return strings.Repeat("g", 255-len(c.Ext))
+	}
+	return "g"
 }
 
 func (c c11Case) redkeyDir() string {
@@ -154,7 +162,7 @@ func c11Build(c c11Case) (root, rel string, err error) {
 	if err = os.MkdirAll(dir, 0o755); err != nil {
 		return
 	}
-	rel = "/" + c.relDir() + "/g" + c.Ext
+	rel = "/" + c.relDir() + "/" + c.baseName() + c.Ext
 	if err = os.WriteFile(filepath.Join(root, filepath.FromSlash(rel)), c.stored(), 0o644); err != nil {
 		return
 	}
@@ -180,6 +188,15 @@ func c11Build(c c11Case) (root, rel string, err error) {
 	case "malformed+redkey":
 		if err = writeKey(dir, []byte("0011")); err == nil {
 			err = writeKey(rk, hexKey(c11KeyR))
+		}
+	case "redkey-is-file":
+		// something else is called REDKEY: there is no key then, the image is served by its own content
+		top := filepath.Join(root, "REDKEY")
+		if c.Prefix != "" {
+			top = filepath.Join(root, c.Prefix, "REDKEY")
+		}
+		if err = os.MkdirAll(filepath.Dir(top), 0o755); err == nil {
+			err = os.WriteFile(top, []byte("not a directory"), 0o644)
 		}
 	}
 	return
@@ -390,7 +407,7 @@ func c11Product(yield func(c11Case) bool) {
 	for _, dir := range []string{"PS3ISO", "ps3iso", "Ps3Iso", "PS3ISOX", "GAMES"} {
 		for _, ext := range []string{".iso", ".ISO", ".Iso", ".bin"} {
 			for depth := 0; depth <= 2; depth++ {
-				for _, key := range []string{"none", "adjacent", "redkey", "both", "malformed", "malformed+redkey"} {
+				for _, key := range []string{"none", "adjacent", "redkey", "both", "malformed", "malformed+redkey", "redkey-is-file"} {
 					for _, wm := range []string{"none", "enc", "dec"} {
 						for _, ln := range []int{0xF6F, 0xF70, 0x106F, 0x1070, 8 * 2048, 8*2048 + 100} {
 							for _, prefix := range []string{"", "x"} {
@@ -417,12 +434,38 @@ func c11Product(yield func(c11Case) bool) {
 	}
 }
 
+// c11LongNames: images whose own name fills the 255 bytes a name may have (key file names would be longer).
+func c11LongNames(yield func(c11Case) bool) {
+	seed := uint64(900000)
+	for _, dir := range []string{"PS3ISO", "GAMES"} {
+		for _, ext := range []string{".iso", ".bin"} {
+			for _, wm := range []string{"none", "enc", "dec"} {
+				for _, ln := range []int{0x1070, 8 * 2048} {
+					for _, key := range []string{"none", "redkey-is-file"} {
+						seed++
+						if !yield(c11Case{DirName: dir, Ext: ext, Key: key, Watermark: wm, Length: ln, Seed: seed*31 + 7, LongName: true, Net: seed%2 == 0}) {
+							return
+						}
+					}
+				}
+			}
+		}
+	}
+}
+
 func TestC11Product(t *testing.T) {
 	st := hx.NewStats("C11", "product")
 	if true {
-		st.MarkExhaustive("full product: 5 directory names x 4 extensions x 3 depths x 6 key layouts x 3 watermarks x 6 file lengths x 2 prefixes (library or network route per case)")
+		st.MarkExhaustive("full product: 5 directory names x 4 extensions x 3 depths x 7 key layouts (incl. a regular file called REDKEY) x 3 watermarks x 6 file lengths x 2 prefixes (library or network route per case), plus 48 cases with a 255-byte image name")
 	} else {
 		st.MarkExhaustive("all combinations of the precedence-relevant factors (key layout x watermark x {PS3ISO/.iso, other} x {0x1070, larger}); the remaining product is sampled 1/4")
 	}
-	hx.RunCases(t, st, c11Product, runC11, hx.PropOpts{WriteAhead: true})
+	all := func(yield func(c11Case) bool) {
+		ok := true
+		c11Product(func(c c11Case) bool { ok = yield(c); return ok })
+		if ok {
+			c11LongNames(yield)
+		}
+	}
+	hx.RunCases(t, st, all, runC11, hx.PropOpts{WriteAhead: true})
 }
